@@ -221,3 +221,46 @@ def reencoding_obligations(res, tree, rule: str) -> int:
                                 f"comparing it with {c0.args[0]} misses those cells")
     res.add(rule, "jumanji/environments", "reset/step closures", "no test compares a re-encoding array with a code it re-encodes", bad == 0, f"{n} comparisons of an array with an integer code inspected")
     return n
+
+
+# ------------------------------------------------------------------------------------------------------------------
+def negative_sentinel_obligations(res, tree, rule: str) -> int:
+    """JAX normalises negative indices (-1 means the last element) BEFORE an out-of-bounds mode applies, so a scatter
+    or gather `.at[I].set(v, mode="drop")` / `mode="fill"` never drops a -1 sentinel produced by `where(cond, x, -1)`:
+    the last element is hit instead.  (The pinned GraphColoring mask therefore allocates one extra slot for the -1
+    entries and slices it off.)  Every `.at[...]` update / read with an explicit mode is inspected."""
+    n = bad = 0
+    seen = set()
+    for ea in analyses(tree):
+        for root in (ea.reset_result, ea.step_result):
+            for t in deps(root):
+                if not (t.kind == "call" and t.args[0].kind == "attr" and t.args[0].args[1] in ("set", "add", "get", "multiply", "min", "max")):
+                    continue
+                b = t.args[0].args[0]
+                if not (b.kind == "index" and b.args[0].kind == "attr" and b.args[0].args[1] == "at"):
+                    continue
+                mode = dict(t.args[2]).get("mode")
+                if mode is None or strip_cast(mode).kind != "const" or strip_cast(mode).args[0] not in ("drop", "fill"):
+                    continue
+                n += 1
+                idx = b.args[1]
+                neg = None
+                for d in [idx] + list(deps(idx)):
+                    if d.kind == "choice" and d.args[0] in ("where", "select"):
+                        for a in d.args[2]:
+                            a0 = strip_cast(a)
+                            if a0.kind == "const" and isinstance(a0.args[0], int) and not isinstance(a0.args[0], bool) and a0.args[0] < 0:
+                                neg = a0.args[0]
+                            if a0.kind == "un" and a0.args[0] == "-" and strip_cast(a0.args[1]).kind == "const" and isinstance(strip_cast(a0.args[1]).args[0], int):
+                                neg = -strip_cast(a0.args[1]).args[0]
+                if neg is not None:
+                    loc, fn, src = site_of(t)
+                    if (fn, src) in seen:
+                        continue
+                    seen.add((fn, src))
+                    bad += 1
+                    res.add(rule, loc, fn, f"negative sentinel index under mode={strip_cast(mode).args[0]!r}: {src}", False,
+                            f"the index holds the sentinel {neg} where no entry is meant; JAX wraps negative indices before `mode` applies, so element {neg} (counted from the end) is written / read instead of being dropped")
+    res.add(rule, "jumanji/environments", "reset/step closures", "no scatter / gather relies on mode='drop' / 'fill' to discard a negative sentinel index", bad == 0,
+            f"{n} indexed updates with an explicit out-of-bounds mode inspected")
+    return n
